@@ -2289,6 +2289,7 @@ class Parameters:
         for method, queued, on_init, constant, dynamic in type(obj).param._depends['watch']:
             # On initialization set up constant watchers; otherwise
             # clean up previous dynamic watchers for the updated attribute
+            all_dynamic = dynamic
             dynamic = [d for d in dynamic if attribute is None or d.spec.split(".")[0] == attribute]
             if init:
                 constant_grouped = defaultdict(list)
@@ -2302,6 +2303,9 @@ class Parameters:
             elif dynamic:
                 for w in obj._param__private.dynamic_watchers.pop(method, []):
                     (w.cls if w.inst is None else w.inst).param.unwatch(w)
+                # The dynamic watchers of every path root of this method were
+                # just removed, not only those under `attribute`: set all up again.
+                dynamic = all_dynamic
             else:
                 continue
 
